@@ -64,10 +64,18 @@ func verifOrder(which int) *big.Int {
 //verif:big bv 272
 //verif:timeout 300
 func VerifC08ShiftCommutes(curve, full int) {
+	verifShiftBody(curve, full)
+}
+
+func verifShiftBody(curve, full int) {
 	n := verifOrder(curve)
 	g := verifGroup{&stdelliptic.CurveParams{N: n, Name: "abstract", BitSize: 256}}
 	k := verifBig("k", 256)
-	verifAssume(k.Sign() > 0 && k.Cmp(n) < 0)
+	if full == 2 {
+		verifAssume(k.Cmp(n) >= 0) // unreduced, top byte non-zero
+	} else {
+		verifAssume(k.Sign() > 0 && k.Cmp(n) < 0)
+	}
 	if full == 0 {
 		verifAssume(k.Cmp(new(big.Int).Lsh(big.NewInt(1), 248)) >= 0)
 	}
